@@ -171,6 +171,8 @@ def _tolerant(d):
 
 def cfg_from_dict(d):
   from ai_edge_quantizer import qtyping
+  if d is None:
+    return qtyping.OpQuantizationConfig()   # entry without op_config: the default config
   kw = dict(core.jcanon(d))
   for k in ('activation_tensor_config', 'weight_tensor_config'):
     if kw.get(k) is not None:
@@ -315,7 +317,7 @@ def execute(doc):
       if outcome == 'ok':
         mg.model.clear()
         for ru in rules:
-          mg.model.add(ru['regex'], ru['operation'], cfg_from_dict(ru['op_config']),
+          mg.model.add(ru['regex'], ru['operation'], cfg_from_dict(ru.get('op_config')),
                        ru['algorithm_key'])
         accepted += 1
         rec.event(step, 'load', 'ok', len(rules))
